@@ -190,9 +190,12 @@ def rules(ctx: Ctx) -> None:
     ctx.extra["guarded_helper_calls_with_known_argument_type"] = n_calls
 
     # ---- R01.4 FROM traversal -----------------------------------------------------------------
-    ft = next((m for m in BE.methods.values() if any(isinstance(k, ast.Call) and isinstance(k.func, ast.Attribute) and k.func.attr == "_add_dataset_from_expression_element" for k in prog.walk_fn(m)) and m.name != "_add_dataset_from_expression_element"), None)
+    def picks_from_item(k: ast.AST) -> bool:
+        return isinstance(k, ast.Call) and isinstance(k.func, ast.Name) and k.func.id == "find_from_expression_element"
+
+    ft = next((m for m in BE.methods.values() if any(picks_from_item(k) for k in prog.walk_fn(m))), None)
     if ft is None:
-        raise AnalysisError("FROM traversal method not found on BaseExtractor")
+        raise AnalysisError("FROM traversal method (the one that picks the from_expression_element of a FROM item) not found on BaseExtractor")
     ctx.touched(ft)
     cfg = flow(prog, ft).cfg
 
@@ -207,11 +210,13 @@ def rules(ctx: Ctx) -> None:
         return False
 
     J = [c.id for c in cfg.nodes.values() if c.ast is not None and c.kind in ("for", "stmt", "cond") and is_join_traversal(c)]
-    A = [c for c in cfg.nodes.values() if c.ast is not None and c.kind in ("stmt", "cond") and any(isinstance(k, ast.Call) and isinstance(k.func, ast.Attribute) and k.func.attr == "_add_dataset_from_expression_element" for k in ast.walk(c.ast))]
+    A = [c for c in cfg.nodes.values() if c.ast is not None and c.kind in ("stmt", "cond") and any(picks_from_item(k) for k in ast.walk(c.ast))]
     ctx.floor("sites turning a FROM item into a dataset", len(A), 2)
     for a in A:
-        loops = [c.id for c in cfg.nodes.values() if c.kind == "for" and cfg.reach(c.id, a.id) and cfg.reach(a.id, c.id) and c.id not in J]
-        end = loops[-1] if loops else cfg.exit
+        # the innermost loop (other than a join traversal) that syntactically encloses the site: one iteration handles one FROM item
+        encl = [anc for anc in prog.ancestors(a.ast) if isinstance(anc, ast.For)]
+        loops = [cid for cid in (cfg.node_for(anc) for anc in encl) if cid is not None and cid not in J]
+        end = loops[0] if loops else cfg.exit
         ok = any(cfg.dominates(j, a.id) for j in J) or not cfg.reach(a.id, end, avoid=J)
         branch = "sql89" if loops else "single"
         ctx.ob("R01.4", f"from-item-and-its-joins-consumed-together:{branch}", ok, f"{ft.mod.path}:{a.lineno}",
@@ -316,7 +321,8 @@ def rules(ctx: Ctx) -> None:
     for n in prog.walk_fn(ex):
         if isinstance(n, ast.Call) and isinstance(n.func, ast.Attribute) and n.func.attr == "get_children":
             facts = flow(prog, ex).facts_for(n)
-            if any("is_set_expression" in t and p for t, p in facts):
+            # a pass over the branches: get_children on the very segment that was tested to be a set expression
+            if any(p and t == f"is_set_expression({u(n.func.value)})" for t, p in facts):
                 passes.append((n, tuple(sorted(x for a in n.args for x in [prog.try_fold(a, ex.mod, ex)] if isinstance(x, str)))))
     ctx.floor("passes over set-operation branches in SelectExtractor.extract", len(passes), 2)
     kinds = {p[1] for p in passes}
